@@ -292,6 +292,55 @@ def run(tier="quick", replay=None):
         R.check(bool(ret_from) and field_ok, "R18.c.source", "R18.c.source|gather_dependencies", gd.loc(0),
                 "auto: result derives from frontend(..).include_forms",
                 "gather_dependencies' result no longer derives from frontend(..).include_forms", fn=gd.path)
+        # ... on EVERY success path: no Ok return of the listing bypasses the frontend (an early `return Ok(vec![])`
+        # would report an empty listing while the compiler still reads files)
+        fe_blocks = [bb for bb, t in gd.calls() if callee_of(t) == "compiler::frontend::frontend"]
+        oks = ok_assign_blocks(gd)
+        bypass = [b for b in oks if not must_pass(gd, 0, [b], fe_blocks)]
+        R.check(bool(fe_blocks) and bool(oks) and not bypass, "R18.c.source", "R18.c.source|every-ok-through-frontend",
+                "%s:%s" % (gd.file, gd.line),
+                "auto: every Ok return of gather_dependencies is preceded by the frontend call on all paths (%d Ok site(s))" % len(oks),
+                "gather_dependencies has a success return that does not pass through frontend(..): the listing for such inputs "
+                "is not what the compiler reads", fn=gd.path)
+    # ---------------- R18.d classic reader sees the search path in the same order ------------------
+    # The classic compiler (embed-file in programs without a dialect sigil) reads files through stage_2's reader, which
+    # walks the CLVM list produced by get_include_paths.  That list is built by consing onto an accumulator, so the
+    # search path must be traversed in reverse for the list to come out in search-path order (first match = the file the
+    # listing names).
+    GIP = "classic::clvm_tools::stages::stage_2::operators::CompilerOperatorsInternal::get_include_paths"
+    fam = prog.family(GIP)
+    if not fam:
+        R.viol("R18.d", "R18.d|anchor-lost|get_include_paths", "classic::clvm_tools::stages::stage_2::operators",
+               "anchor lost: CompilerOperatorsInternal::get_include_paths")
+    else:
+        prepend = append = False
+        reversed_ = False
+        for f in fam:
+            fl = Flow(f)
+            for bb, t in f.calls():
+                c = callee_of(t) or ""
+                d = t.get("callee") or ""
+                if any(x in c or x in d for x in ("iter::Rev<", "Iterator::rev", "rfold", "next_back", "DoubleEndedIterator")):
+                    reversed_ = True
+                if c.endswith("Allocator::new_pair") and len(t["args"]) >= 3:
+                    def from_atom(op):
+                        l = op_local(op)
+                        if l is None:
+                            return False
+                        is_pair = lambda x: any((callee_of(tt) or "").endswith("Allocator::new_pair") for _, tt in fl.call_defs.get(x, []))
+                        return bool([1 for x in fl.back_pure([l], stop=is_pair) for _, tt in fl.call_defs.get(x, [])
+                                     if (callee_of(tt) or "").endswith("Allocator::new_atom")])
+                    a1, a2 = from_atom(t["args"][1]), from_atom(t["args"][2])
+                    if a1 and not a2:
+                        prepend = True
+                    elif a2 and not a1:
+                        append = True
+        R.check(prepend and not append and reversed_, "R18.d", "R18.d|classic-search-path-order", "%s:%s" % (fam[0].file, fam[0].line),
+                "auto: get_include_paths conses each path onto the accumulated list while traversing search_paths in reverse "
+                "(list comes out in search-path order)",
+                "get_include_paths builds the classic reader's search list in the wrong order (cons-prepend=%s, cons-as-tail=%s, "
+                "reverse traversal=%s): classic embed-file would take the LAST match while the listing names the first" % (
+                    prepend, append, reversed_), fn=GIP)
     R.extra["recorders"] = {k: {"skips": v["skips"], "site": v["site"]} for k, v in recorders.items()}
     return R.finalize()
 
